@@ -27,7 +27,7 @@ type SimCheck struct {
 	Judged      []string // counters reported in evidence as "events judged"
 	Assumptions []string
 	// Extra runs after the random cases (scripted scenarios); returns findings and evidence entries.
-	Extra func(run *harness.Run) ([]harness.Finding, map[string]interface{})
+	Extra func(run *harness.Run) ([]harness.Finding, map[string]interface{}, []string)
 }
 
 type replayFile struct {
@@ -221,7 +221,8 @@ func RunSimCheck(run *harness.Run, sc *SimCheck) int {
 		inconclusive = append(inconclusive, "fewer than 2 non-trivial cases")
 	}
 	if sc.Extra != nil {
-		fs, ev := sc.Extra(run)
+		fs, ev, inc := sc.Extra(run)
+		inconclusive = append(inconclusive, inc...)
 		findings = append(findings, fs...)
 		for k, v := range ev {
 			cov[k] = v
@@ -269,4 +270,20 @@ func replaySim(run *harness.Run, sc *SimCheck, p *Profile) int {
 		}
 	}
 	return run.Conclude(findings, nil)
+}
+
+
+// ScriptedFindings turns the violations of a scripted scenario into findings with a replay file.
+func ScriptedFindings(prop, name string, r *Result) []harness.Finding {
+	path := harness.ReplayPath(prop, "scripted-"+name)
+	var vl []string
+	for _, v := range r.Viol {
+		vl = append(vl, fmt.Sprintf("step %d: %s", v.Step, v.String()))
+	}
+	harness.WriteJSON(path, map[string]interface{}{"property": prop, "scripted_scenario": name, "config": r.Cfg.Describe(), "violations": vl, "trace": r.Trace})
+	var out []harness.Finding
+	for _, v := range r.Viol {
+		out = append(out, harness.Finding{Prop: v.Prop, Rule: v.Rule, Taint: v.Taint, Detail: v.Detail, Replay: path})
+	}
+	return out
 }
